@@ -248,15 +248,17 @@ impl Encode for Request<'_> {
             Self::WriteMultipleCoils(address, coils) => {
                 BigEndian::write_u16(&mut buf[1..], *address);
                 let len = coils.len();
+                let byte_count = u8::try_from(coils.packed_len()).map_err(|_| Error::BufferSize)?;
                 BigEndian::write_u16(&mut buf[3..], len as u16);
-                buf[5] = coils.packed_len() as u8;
+                buf[5] = byte_count;
                 coils.copy_to(&mut buf[6..]);
             }
             Self::WriteMultipleRegisters(address, words) => {
                 BigEndian::write_u16(&mut buf[1..], *address);
                 let len = words.len();
+                let byte_count = u8::try_from(len * 2).map_err(|_| Error::BufferSize)?;
                 BigEndian::write_u16(&mut buf[3..], len as u16);
-                buf[5] = len as u8 * 2;
+                buf[5] = byte_count;
                 for (idx, byte) in words.data.iter().enumerate() {
                     buf[idx + 6] = *byte;
                 }
@@ -266,8 +268,9 @@ impl Encode for Request<'_> {
                 BigEndian::write_u16(&mut buf[3..], *quantity);
                 BigEndian::write_u16(&mut buf[5..], *write_address);
                 let n = words.len();
+                let byte_count = u8::try_from(n * 2).map_err(|_| Error::BufferSize)?;
                 BigEndian::write_u16(&mut buf[7..], n as u16);
-                buf[9] = n as u8 * 2;
+                buf[9] = byte_count;
                 for (idx, byte) in words.data.iter().enumerate() {
                     buf[idx + 10] = *byte;
                 }
@@ -293,13 +296,13 @@ impl Encode for Response<'_> {
         buf[0] = FunctionCode::from(*self).value();
         match self {
             Self::ReadCoils(coils) | Self::ReadDiscreteInputs(coils) => {
-                buf[1] = coils.packed_len() as u8;
+                buf[1] = u8::try_from(coils.packed_len()).map_err(|_| Error::BufferSize)?;
                 coils.copy_to(&mut buf[2..]);
             }
             Self::ReadInputRegisters(registers)
             | Self::ReadHoldingRegisters(registers)
             | Self::ReadWriteMultipleRegisters(registers) => {
-                buf[1] = (registers.len() * 2) as u8;
+                buf[1] = u8::try_from(registers.len() * 2).map_err(|_| Error::BufferSize)?;
                 registers.copy_to(&mut buf[2..]);
             }
             Self::WriteSingleCoil(address) => {
